@@ -78,6 +78,12 @@ CHECKS.update({
    text="For all real matrices of order 1..3 (factor/solve; thorough 4) and 1..2 (inverse/determinant; thorough 3): on every success path p is a permutation with matching parity, |L_ij| <= 1, L*U = P*A / L*D*L^T = A / L*L^T = A with L_ii > 0, solve gives A*x = b, inv and inv_ agree and give A*A^-1 = I, det equals the Leibniz determinant, sgndet its sign; zero columns, equal rows and non-positive Cholesky pivots are reported as failure on every path. The rounding half of the statement is outside.",
    note=E2NOTE + REALNOTE + " log is an uninterpreted function; sqrt(x) is the y >= 0 with y*y = x."),
 })
+CHECKS.update({
+ "C14": dict(engine="llsym", cat="model_checking", design="4/C14",
+   technique="symbolic execution of src/trajtrap.c and the loop-free cruise branch of src/trajbell.c (llsym, a_real as z3 Real, nlsat): planning branches forked, symbolic query time inside every phase, limits/continuity/derivative clauses decided by z3",
+   text="Trapezoid: every planning branch, both directions, all real feasible requests: phase durations ordered, start/end state, queries outside [0,t], |vel| <= |vm| for a symbolic time in each phase, acc = d vel/dt, vel = d pos/dt, position and velocity continuous at every phase boundary. Bell profile: the same clauses plus |acc| <= am, |jer| <= jm and continuity of acc, for plans with a constant-velocity phase; the iterative acceleration-reduction loop is cut and stated as outside.",
+   note=E2NOTE + REALNOTE + " sqrt(x) is the y >= 0 with y*y = x; z3 'unknown' answers would be listed as dropped (bell only), there are none at present."),
+})
 NOT_YET = {}
 
 def main():
